@@ -35,6 +35,7 @@ PROPS = {
     "C15": "harness.corr_bytecode",
     "C13": "harness.corr_c13",
     "C16": "harness.corr_c16",
+    "C17": "harness.corr_xml",
     "C18": "harness.corr_globals",
     "C19": "harness.corr_threads",
     "C09": "harness.corr_suites",
